@@ -385,6 +385,71 @@ def open_image(image, name, ptype):
     return q, warned, None
 
 
+def examine(image, name, ptype, ref, consumer, limit_s=12.0):
+    """Open ``image`` as ``ptype`` and compare every observation with ``ref``.
+
+    Returns (status, info): "fail" (cannot be opened; info = exception name),
+    "warned", "complete", "wrong" (info = list of differing observations) or
+    "hang" (the reader did not come back within limit_s).  Whether the file
+    can be opened at all is decided in-process (cheap, and true for ~90 % of
+    the crash images); anything that reads tensor data from an openable image
+    runs in a forked child with a time limit, because a torn image can make
+    the HDF5 library spin for minutes.  A hang is a failure to read, not a
+    silent success.
+    """
+    import json
+    import os
+    import select
+    import signal
+    q, warned, exc = open_image(image, name, "file")   # header only
+    if q is None:
+        return "fail", exc
+    _close(q)
+    if warned and ptype == "file":
+        return "warned", None
+    r, w = os.pipe()
+    pid = os.fork()
+    if pid == 0:
+        out = ("fail", "child")
+        try:
+            os.close(r)
+            q2, warned2, exc2 = open_image(image, name, ptype)
+            if q2 is None:
+                out = ("fail", exc2)
+            elif warned2:
+                out = ("warned", None)
+            else:
+                diffs = observe(q2, ref, consumer)
+                out = ("wrong", diffs[:12]) if diffs else ("complete", None)
+        except BaseException as e:  # noqa: BLE001
+            out = ("fail", type(e).__name__)
+        finally:
+            try:
+                os.write(w, json.dumps(out).encode())
+            finally:
+                os._exit(0)
+    os.close(w)
+    data = b""
+    rl, _, _ = select.select([r], [], [], limit_s)
+    if rl:
+        while True:
+            b = os.read(r, 65536)
+            if not b:
+                break
+            data += b
+    else:
+        try:
+            os.kill(pid, signal.SIGKILL)
+        except ProcessLookupError:
+            pass
+    os.close(r)
+    os.waitpid(pid, 0)
+    if not data:
+        return "hang", None
+    status, info = json.loads(data)
+    return status, info
+
+
 def run_case(case, dec):
     log = EventLog()
     disk = simdisk.SimDisk()
@@ -427,24 +492,28 @@ def run_case(case, dec):
              "api_marks": len(marks)}
     first_openable = None
     for p, torn in points:
+        if stats.get("reader_hangs", 0) >= 2:
+            break     # every further torn image would cost another time-out
         image = simdisk.image_from(initial, wlog, p, torn)
         is_final = (p == nops and torn is None)
         for ptype in ("file", "simple"):
             stats["images"] += 1
-            q, warned, exc = open_image(image, name, ptype)
-            if q is None:
+            status, info = examine(image, name, ptype, ref, consumer)
+            if status in ("fail", "hang"):
                 stats["open_failed"] += 1
-                log.ev("img", p, torn or 0, ptype, "fail", exc)
+                if status == "hang":
+                    stats["reader_hangs"] = stats.get("reader_hangs", 0) + 1
+                log.ev("img", p, torn or 0, ptype, status, str(info))
                 if is_final:
                     violations.append({
                         "class": "closed_file_unreadable",
                         "signature": "%s/%s" % (case["kind"], ptype),
                         "detail": "file closed normally cannot be opened: "
-                                  + str(exc)})
+                                  + str(info)})
                 continue
             if first_openable is None:
                 first_openable = p
-            if warned:
+            if status == "warned":
                 stats["warned"] += 1
                 log.ev("img", p, torn or 0, ptype, "warned")
                 if is_final:
@@ -453,11 +522,9 @@ def run_case(case, dec):
                         "signature": "%s/%s" % (case["kind"], ptype),
                         "detail": "file closed normally opens with the "
                                   "corruption warning"})
-                _close(q)
                 continue
-            diffs = observe(q, ref, consumer)
-            _close(q)
-            if diffs:
+            if status == "wrong":
+                diffs = info
                 log.ev("img", p, torn or 0, ptype, "silent-wrong",
                        ",".join(diffs[:6]))
                 cls = "closed_file_incomplete" if is_final else \
@@ -477,6 +544,63 @@ def run_case(case, dec):
                 log.ev("img", p, torn or 0, ptype, "complete")
         if len(violations) >= 3:
             break
+    # -- the other way a writer dies: an uncaught exception or sys.exit at
+    # an API-level point.  No application cleanup runs, but the interpreter
+    # shuts down in an orderly way and h5py closes (flushes) the open file.
+    nmarks = disk.mark_count
+    stats["soft_deaths"] = 0
+    if nmarks and len(violations) < 3:
+        if case["kind"] == "pt_tempo_file":
+            ks = sorted({1 + dec.choose("soft-death-mark", nmarks)
+                         for _ in range(3)})
+        elif nmarks <= 24:
+            ks = list(range(1, nmarks + 1))
+        else:
+            ks = sorted({1 + dec.choose("soft-death-mark", nmarks)
+                         for _ in range(24)})
+        for k in ks:
+            disk3 = simdisk.SimDisk()
+            simdisk.install(disk3)
+            disk3.die_at = k
+            try:
+                run_workload(case, disk3)
+                died = False
+            except simdisk.SoftDeath:
+                died = True
+            disk3.interpreter_shutdown()
+            if not died or name not in disk3.files:
+                continue
+            stats["soft_deaths"] += 1
+            image = disk3.files[name]
+            for ptype in ("file", "simple"):
+                stats["images"] += 1
+                status, info = examine(image, name, ptype, ref, consumer)
+                if status in ("fail", "hang"):
+                    stats["open_failed"] += 1
+                    log.ev("soft", k, ptype, status, str(info))
+                    continue
+                if status == "warned":
+                    stats["warned"] += 1
+                    log.ev("soft", k, ptype, "warned")
+                    continue
+                if status == "wrong":
+                    diffs = info
+                    log.ev("soft", k, ptype, "silent-wrong")
+                    violations.append({
+                        "class": "silent_incomplete_after_writer_exit",
+                        "signature": "%s/%s/%s" % (
+                            case["kind"], ptype, diffs[0].split("[")[0]),
+                        "detail": "writer ended by an uncaught exception at "
+                                  "API-level point %d of %d (interpreter "
+                                  "shut down, file never closed by the "
+                                  "application): the file opens without "
+                                  "warning but %s differ(s) from a complete "
+                                  "file" % (k, nmarks, ", ".join(diffs[:8]))})
+                    break
+                stats["silent_complete"] += 1
+                log.ev("soft", k, ptype, "complete")
+            if len(violations) >= 3:
+                break
     stats["first_openable_prefix"] = -1 if first_openable is None \
         else first_openable
     stats["ops"] = nops
@@ -495,8 +619,10 @@ def run_case(case, dec):
             "image_failed_to_open": stats["open_failed"],
             "image_warned": stats["warned"],
             "image_silent_and_complete": stats["silent_complete"],
-            "torn_images": ntorn, "api_level_marks": len(marks)},
-        "faults_fired": {"crash_point": nops + 1, "torn_write": ntorn},
+            "torn_images": ntorn, "api_level_marks": len(marks),
+            "writer_exits_enumerated": stats["soft_deaths"]},
+        "faults_fired": {"crash_point": nops + 1, "torn_write": ntorn,
+                         "writer_exit_without_close": stats["soft_deaths"]},
         "nontrivial": nops > 10,
         "key": "%s/ops%d" % (case["kind"], nops),
         "stats": stats,
